@@ -119,6 +119,16 @@ func (t *runTarget) Evaluate(engine runner.Engine) error {
 		return nil
 	}
 
+	// Record that the target must be re-run before running it. If the build process dies
+	// while the target is running, nothing else may tell the next build that the target
+	// did not complete: its environment is unchanged and its generated files may already
+	// exist, possibly half-written.
+	info.Rerun = true
+	if err := proj.saveTargetInfo(label, info); err != nil {
+		proj.events.TargetFailed(label, err)
+		return err
+	}
+
 	// Otherwise, evaluate the target.
 	data, changed, err := t.target.evaluate()
 	if err != nil {
